@@ -125,12 +125,13 @@ def index_links(model) -> list[dict]:
     """For every summation index of the aligned amplitude: in how many factors of a term it occurs.  The aligned amplitude is a
     product of rotation matrices contracted with the amplitude symbol - a chain - so every index links exactly two factors."""
     from ampform.sympy import PoolSum
+    from sympy.physics.quantum.spin import WignerD
 
     out = []
     for p in (x for x in sp.preorder_traversal(model.intensity.expression) if isinstance(x, PoolSum)):
         idx = [i for i, _ in p.indices]
         nvals = {i: len(v) for i, v in p.indices}
-        worst = {}
+        worst, angle = {}, {}
         for term in sp.Add.make_args(p.expression):
             facs = sp.Mul.make_args(term)
             for i in idx:
@@ -138,9 +139,14 @@ def index_links(model) -> list[dict]:
                 if n:
                     lo, hi = worst.get(i, (n, n))
                     worst[i] = (min(lo, n), max(hi, n))
+                # an index is a spin projection: a row or column label of a rotation matrix, never one of its angles
+                for f in facs:
+                    for w in f.atoms(WignerD):
+                        if any(a_.has(i) for a_ in w.args[3:]):
+                            angle[i] = angle.get(i, 0) + 1
         for i in idx:
             lo, hi = worst.get(i, (0, 0))
-            out.append({"index": str(i), "min_uses": lo, "max_uses": hi, "n_values": nvals[i]})
+            out.append({"index": str(i), "min_uses": lo, "max_uses": hi, "n_values": nvals[i], "as_angle": angle.get(i, 0)})
         break
     return out
 
